@@ -28,7 +28,7 @@ func init() {
 			"Not decided: interleavings inside net/http, collision probability of the 256-bit IDs, byte identity of the relayed payloads. " +
 			"(M) no long-lived closure (handler, ModifyResponse hook) writes into byte storage captured from its creator, no package-level byte buffer is written, no sync.Pool traffic, and goroutines started in loops capture only per-iteration variables — a shared scratch buffer or loop variable hands one client another client's bytes; (C) the App Engine proxy's GET response cache is looked up and stored under one key that is fmt.Sprintf with both components (user e-mail, full URL) rendered by %q and never shortened, only for GET. " +
 			"(S, second part) the session counter is modified by exactly one positive constant increment; (B) App Engine blob parts are recorded in loop order under the names they are stored with and read back with one ordered GetMulti. " +
-			"(G) request IDs keep the generator's full width (hex of the whole digest); (S) shim session IDs are unique; (F) the agent and the stand-alone proxy force chunked framing, so a stale Content-Length cannot cut one response into the next.",
+			"(G) request IDs keep the generator's full width (hex of the whole digest); (S) shim session IDs are unique; (F) the agent and the stand-alone proxy force chunked framing, so a stale Content-Length cannot cut one response into the next; (X) an interim 1xx never latches a ResponseWriter and a superseded upload attempt cannot take bytes of the retry (shared with C03.X and C06.X).",
 		Assumptions: []string{
 			"net/http server/transport do not mix bodies of different connections",
 			"sha256 of a 63-bit draw is collision-free for distinct draws (IDs are distinct iff draws are distinct)",
@@ -320,6 +320,11 @@ func runC01(c *Ctx) {
 	rulePooledMemory(c, p, "C01.M", "agent", "agent/utils", "agent/websockets", "agent/banner", "agent/sessions", "server")
 	c.Rule("C01.F", "the agent always serialises responses with chunked framing (a stale Content-Length would truncate or mix bodies) (= C03.C)", 1)
 	ruleForcedChunked(c, p, "C01.F")
+	c.Rule("C01.X", "each client's own status and body arrive whole: an interim 1xx never latches a writer (= C03.X); a retried upload cannot be raced or robbed by the attempt it supersedes (= C06.X)", 10)
+	ruleInterimThenFinal(c, p, "C01.X")
+	if f := p.Func("agent/utils.postResponseWithRetries"); f != nil {
+		c06Fence(c, p, "C01.X", f)
+	}
 	c.Rule("C01.B", "App Engine store: multi-part bodies are recorded and read back in part order (= C19.K)", 2)
 	ruleBlobParts(c, p, "C01.B")
 	c.Rule("C01.C", "App Engine proxy GET response cache: one injective key of (user, URL)", 5)
